@@ -137,10 +137,10 @@ class Part(ReadBase):
         for i in range(10 if tier == 'quick' else 120):
             fmt = rng.choice(['ustar', 'pax', 'gnutar', 'newc', 'odc', 'v7tar'])
             cons = rng.choice(['S', 'N', 'S,A', 'N,A,S'])
-            ops = [f'make fmt={fmt} filt=none seed={rng.randrange(1, 10**6)} n={rng.choice([4, 8])}',
+            ops = [f'make fmt={fmt} filt=none seed={rng.randrange(1, 10**6)} n={rng.choice([3, 5])} big=1',
                    f'run blk=w src=cbk cons={cons} trunc=- fault=-']
-            for _ in range(4 if tier == 'quick' else 12):
-                ops.append(f'run blk=w src=multi:{rng.randrange(1, 400000)} cons={cons} trunc=- fault=-')
+            for _ in range(7 if tier == 'quick' else 20):
+                ops.append(f'run blk=w src=multi:p{rng.randrange(1, 100)} cons={cons} trunc=- fault=-')
             ops.append(f'run blk=w src=file:10240 cons={cons} trunc=- fault=-')
             yield Case(f'part:multiskip:{fmt}:{i}', ops, {'cls': 'K'})
         # gzip members with optional header fields, block borders inside the header
